@@ -157,6 +157,40 @@ def search(ctx, deep):
                         if not abs(integ - vol) <= 1e-6 + 1e-5 * abs(vol):
                             bad('probability_density', 'integral!=volume', {'rect': [u1, u2, v1, v2]}, [integ, vol],
                                 'integral of pdf over a rectangle = C-volume')
+    # the base-class finite-difference fallback `Bivariate.partial_derivative` (a listed mechanism: reachable as
+    # Bivariate.partial_derivative(copula, X) / super().partial_derivative(X)): approximates dC/dv row by row, in the
+    # order of the rows given, whatever the batch composition (unsorted rows, repeated rows, one row)
+    from copulas.bivariate.base import Bivariate
+    for fam in B.FAMS:
+        for th in B.theta_grid(fam)[1:-1:2]:
+            c = B.make(fam, th)
+            base = [(rng.uniform(0.1, 0.9), rng.uniform(0.1, 0.9)) for _ in range(5)]
+            batches = {'scattered': base, 'reversed-sorted': sorted(base, reverse=True), 'sorted': sorted(base),
+                       'repeated': base[:2] + base[:2] + [base[0]], 'two-descending': sorted(base, reverse=True)[:2],
+                       'single': base[:1]}
+            for name, rows in batches.items():
+                X = np.array(rows, dtype=float)
+                checked += 1
+                try:
+                    with np.errstate(all='ignore'):
+                        got = np.asarray(Bivariate.partial_derivative(c, X.copy()), dtype=float)
+                        closed = np.asarray(c.partial_derivative(X.copy()), dtype=float)
+                        solo = np.array([float(np.asarray(Bivariate.partial_derivative(c, X[i:i + 1].copy())).ravel()[0])
+                                         for i in range(len(rows))])
+                except Exception as e:  # noqa
+                    found += 1
+                    ctx.fail_input(f'{fam}.partial_derivative', {'theta': th, 'rows': rows, 'batch': name, 'via': 'Bivariate.partial_derivative'},
+                                   f'{vc.exc_kind(e)}: {e}'[:200], 'the fallback serves every batch', 'Bivariate.partial_derivative:fallback-raises')
+                    break
+                ok = got.shape == closed.shape and np.allclose(got, closed, rtol=0, atol=5e-3) \
+                    and np.array_equal(got, solo, equal_nan=True)
+                if not ok:
+                    found += 1
+                    ctx.fail_input(f'{fam}.partial_derivative', {'theta': th, 'rows': rows, 'batch': name, 'via': 'Bivariate.partial_derivative'},
+                                   {'fallback': got.tolist(), 'closed_form': closed.tolist(), 'row_alone': solo.tolist()},
+                                   'the finite-difference fallback approximates dC/dv for each row, in row order (5e-3), and equals '
+                                   'the row evaluated alone', 'Bivariate.partial_derivative:fallback-not-rowwise-dC/dv')
+                    break
     # history: one object re-parameterised several times must behave like a fresh object
     for fam in B.FAMS:
         obj = B.cls_of(fam)()
